@@ -231,6 +231,55 @@ let case_search_dir r =
   let tag = if ptag = "invalid" then "dir_invalid" else if total = 0 then "dir_nohit" else if mx > 0 && mx < total then "dir_cut" else "dir_all" in
   emit ~fn:"SearchDir" ~tag ~s ~m (enc_dump d :: enc_opts o)
 
+(* ------------------------------------------------------------------ the wrappers of search.go / secrets.go *)
+(* regexp.QuoteMeta written independently of the Coq model *)
+let quote_meta_ref (s : string) : string =
+  let b = Buffer.create 16 in
+  String.iter (fun c -> if String.contains "\\.+*?()|[]{}^$" c then Buffer.add_char b '\\'; Buffer.add_char b c) s;
+  Buffer.contents b
+let meta_strings = [| "a.c"; "abc"; "a+b"; "aab"; "(x)"; "x"; "$9"; "9"; "^top"; "top"; "c:\\dir"; "{}"; "what?"; "wha";
+                      "2*3"; "223"; "[1 2]"; "1"; "a|b"; "e+06"; "ee06"; "x.y.z"; "xayaz"; "end$"; "\\d"; "7" |]
+
+let case_quotemeta r =
+  let n = rint r 14 in
+  let s = String.init n (fun _ -> match rint r 4 with
+      | 0 -> "\\.+*?()|[]{}^$".[rint r 14]
+      | 1 -> Char.chr (rint r 256)
+      | _ -> pick r [| 'a'; 'Z'; '0'; ' '; '-'; '_'; '/'; ':'; '<'; '#'; '&'; '~' |]) in
+  let q = quote_meta_ref s in
+  (* the specification proper: q reads back to s as an escaped literal *)
+  let back = match unquote (bs q) with Some b -> hex_of_bytes b | None -> "none" in
+  if back <> hex_of_string s then prerr_endline ("C15 gen: QuoteMeta reference does not read back: " ^ hex_of_string s);
+  emit ~fn:"QuoteMeta" ~tag:(if q = s then "plain" else "escaped") ~s:("s:" ^ hex_of_string q) ~m:("s:" ^ hex_of_bytes (quoteMeta (bs s))) [ hexf (bs s) ]
+
+(* QuickSearch on a real data directory (cluster written by the harness as for SearchDir) *)
+let case_quick_dir r =
+  let ndb = 1 + rint r 2 in
+  let d = List.init ndb (fun i ->
+      let cols = shuffle r (distinct_keys r [| "id"; "name"; "email"; "note"; "Name"; "z"; "a" |] (1 + rint r 4) []) in
+      let kinds = List.map (fun _ -> rint r 5 = 0) cols in
+      { d_name = bs (pick r [| "postgres"; "app"; "shop" |] ^ string_of_int i);
+        d_tables = [ { t_name = bs (pick r [| "users"; "t"; "notes" |]); t_columns = List.map bs cols;
+                       t_rows = List.init (1 + rint r 5) (fun _ ->
+                           shuffle r (List.map2 (fun c isint ->
+                               (bs c, if isint then VI32 (zi (pick r [| 42; -7; 1; 12345; 100000 |]))
+                                 else VStr (bs (if rbool r then pick r meta_strings else (let s = rstring r in if s = "" then "x" else s))))) cols kinds)) } ] }) in
+  let texts = dump_texts d in
+  let lit = match rint r 6 with
+    | 0 -> pick r meta_strings
+    | 1 -> flipcase (pickl r texts)
+    | 2 -> let s = pickl r texts in let n = String.length s in if n > 2 then String.sub s 1 (n - 1) else s
+    | 3 -> pick r [| "."; ".*"; "a.c|abc"; "^a"; "x$"; "[a-z]"; "\\"; "(?i)x"; "" |]
+    | _ -> pickl r texts in
+  let o = { pattern = bs (quote_meta_ref lit); caseSensitive = false; includeRow = true; maxResults = zi 0 } in
+  let sres = expected_search compile matches show d o in
+  let s = c_search sres in
+  let m = c_search (quickSearch compile matches show (fun _ -> Some d) [] (bs lit)) in
+  let total = match sres with Inr l -> List.length l | Inl _ -> -1 in
+  let meta = quote_meta_ref lit <> lit in
+  let tag = (if meta then "quick_meta" else "quick_plain") ^ (if total = 0 then "_nohit" else if total < 0 then "_err" else "_hit") in
+  emit ~fn:"QuickSearchDir" ~tag ~s ~m [ enc_dump d; hexf (bs lit) ]
+
 let case_matchvalue r =
   let v = match rint r 4 with
     | 0 -> rscalar r
@@ -449,17 +498,39 @@ let case_scan_real r =
   let m = c_res coords (scanDumpResult show det d) in
   emit ~fn:"ScanDumpReal" ~tag:(Printf.sprintf "planted%d" !planted) ~s ~m [ enc_dump d ]
 
+(* ScanForSecrets / SearchSecrets on a real data directory (text and int4 cells only: what the harness' cluster writer lays out) *)
+let case_secrets_dir r =
+  let tokens = ref [] in
+  let planted = ref 0 in
+  let d = List.init (1 + rint r 2) (fun i ->
+      let cols = shuffle r (distinct_keys r [| "id"; "name"; "value"; "data"; "note" |] (2 + rint r 3) []) in
+      { d_name = bs (Printf.sprintf "db%d" i);
+        d_tables = [ { t_name = bs (pick r [| "t"; "creds"; "users" |]); t_columns = List.map bs cols;
+                       t_rows = (let isint = List.map (fun _ -> rint r 4 = 0) cols in
+                                 List.init (1 + rint r 4) (fun _ ->
+                           List.map2 (fun c ii ->
+                               (bs c, if ii then VI32 (zi (rint r 100000)) else if rint r 3 = 0 && !planted < 3 then begin
+                                    incr planted; let t = real_token r in tokens := t :: !tokens;
+                                    VStr (bs (match rint r 3 with 0 -> t | 1 -> "token " ^ t | _ -> t ^ " (prod)")) end
+                                 else VStr (bs (let x = pick r decoys in if x = "" then "n" else x)))) cols isint)) } ] }) in
+  let det = [ ideal_detector !tokens ] in
+  let coords fs = c_list (List.sort_uniq compare (List.map (fun f ->
+      Printf.sprintf "%s/%s/%s/%s" (sb f.f_database) (sb f.f_table) (zs f.f_rowindex) (sb f.f_column)) fs)) in
+  let s1 = coords (expected_scan show det d) in
+  let m1 = c_res coords (scanDumpResult show det d) in
+  emit ~fn:"SecretsDir" ~tag:(Printf.sprintf "planted%d" !planted) ~s:(s1 ^ "|" ^ s1) ~m:(m1 ^ "|" ^ m1) [ enc_dump d ]
+
 (* ------------------------------------------------------------------ main *)
 let gen_case r k =
   match k mod 20 with
   | 0 | 1 | 2 | 3 | 4 | 5 | 6 -> case_search r
-  | 7 -> case_search_dir r
+  | 7 -> if k mod 60 = 7 then case_quick_dir r else if k mod 60 = 27 then case_quotemeta r else case_search_dir r
   | 8 -> if k mod 40 = 8 then case_search_edge r else case_search_dir r
   | 9 | 10 | 11 -> case_matchvalue r
   | 12 -> case_rowkeys r
   | 13 | 14 | 15 -> case_prefilter r
   | 16 | 17 | 18 -> case_scan r
-  | _ -> if k mod 100 = 19 then case_scan_real r else if k mod 4000 = 39 then case_scan_long r else case_scan r
+  | _ -> if k mod 100 = 19 then case_scan_real r else if k mod 400 = 39 then case_secrets_dir r else if k mod 4000 = 39 then case_scan_long r else case_scan r
 
 let gen seed n = for k = 0 to n - 1 do gen_case (rng_for seed k) k done
 let () = main gen
